@@ -34,8 +34,8 @@ INTERLEAVE = [[0, 1, 2, 3], [2, 0, 3, 1], [0, 2, 1, 3]]  # orders of rows (l1.a,
 
 def c09_lists(order: int, xa0: bool, lab1: bool, xa1: bool, xa2: bool, xb0: bool, xb1: bool, xb2: bool, c0: int) -> bool:
     """
-    pre: 33 <= c0 <= 126 and c0 != 36
-    post: _ == True
+    vpre: 33 <= c0 <= 126 and c0 != 36
+    vpost: _ == True
     """
     T = [S(c0, 48 + i) for i in range(10)]
     r0 = {"list_name": "l1", "name": "a", "label": T[0]}
@@ -124,10 +124,10 @@ specialise(
 
 def c09_wiring(variant: int, f0: int, f1: int, g0: int, g1: int, sd: int) -> bool:
     """
-    pre: 33 <= f0 <= 126 and f0 != 36 and 33 <= f1 <= 126 and f1 != 36
-    pre: 33 <= g0 <= 126 and g0 != 36 and 33 <= g1 <= 126 and g1 != 36
-    pre: 48 <= sd <= 57
-    post: _ == True
+    vpre: 33 <= f0 <= 126 and f0 != 36 and 33 <= f1 <= 126 and f1 != 36
+    vpre: 33 <= g0 <= 126 and g0 != 36 and 33 <= g1 <= 126 and g1 != 36
+    vpre: 48 <= sd <= 57
+    vpost: _ == True
     """
     F1, F2 = S(f0, f1), S(g0, g1)
     q1 = {"type": "select_one l1", "name": "q1", "label": "Q1"}
@@ -239,9 +239,9 @@ def c09_or_other(multi: bool, has_other: bool, c0: int) -> bool:
 
 def c09_sources(kind: int, s0: int, s1: int) -> bool:
     """
-    pre: (97 <= s0 <= 122 or 65 <= s0 <= 90 or s0 == 95)
-    pre: (97 <= s1 <= 122 or 65 <= s1 <= 90 or s1 == 95 or 48 <= s1 <= 57)
-    post: _ == True
+    vpre: (97 <= s0 <= 122 or 65 <= s0 <= 90 or s0 == 95)
+    vpre: (97 <= s1 <= 122 or 65 <= s1 <= 90 or s1 == 95 or 48 <= s1 <= 57)
+    vpost: _ == True
     """
     stem = S(s0, s1)
     rows = [{"type": "text", "name": "q0", "label": "Q0"}]
